@@ -62,6 +62,7 @@ def decode_line(line: str) -> Optional[Tuple[str, str, List[str]]]:
     mn = toks[0]
     if mn == "(bad)":
         mn = "bad"
+    mn = mn.replace(",", ".")      # branch hints (jo,pn): the separator may not occur inside a field
     ops: List[str] = []
     if len(toks) > 1 and not toks[1].startswith("#"):
         optext = toks[1].split("#")[0]
